@@ -119,6 +119,7 @@ def C07(ctx):
                         "RationalSemiring has no public constructor: only naturals built from one/zero/+/* are reachable"]
     _bdd_family(ctx, "c07", "TraceBdd_C07.cfg")
     _sdd_family(ctx, "c07", "TraceSdd_C07.cfg", nq=4, nt=24)
+    record_and_validate(ctx, td_jobs(ctx, 3 if ctx.quick else 16, 120), "TraceTopDown", "TraceTopDown_C07.cfg")
 
 
 def C08(ctx):
@@ -142,3 +143,31 @@ def C12(ctx):
     ctx.assumptions += ["domain as stated in the property: probabilities k/8 summing to one off the query variables; MEU: "
                         "decision variables weigh (1,0), rewards >= 0 on the last variables of the order"]
     _bdd_family(ctx, "c12", "TraceBdd_C12.cfg")
+
+
+def C09(ctx):
+    ctx.assumptions += [
+        "entailment and unsatisfiability are decided by TLC by enumerating all assignments (<= 6 variables)",
+        "CNFs keep <= 25 literal occurrences so that the prime-product residual hash cannot wrap 128 bits",
+        "domain: pops never exceed successful decides; decision labels < num_vars",
+    ]
+    model_check(ctx, "MC_Watched", "MC_Watched.cfg", "Watched (as repaired) refines UnitProp over all decide/pop interleavings, 8 CNF shapes", workers=6)
+    model_check(ctx, "MC_Watched", "MC_Watched_all2.cfg", "all 400 two-clause CNFs over 3 variables, depth 4", workers=8, timeout=1200)
+    model_check(ctx, "MC_Watched", "MC_Watched_ascoded.cfg", "regression: the replacement-watch choice as originally coded misses a unit",
+                workers=2, expect_violation=True)
+    n = 6 if ctx.quick else 40
+    segs = 40 if ctx.quick else 60
+    record_and_validate(ctx, [("sat_%d" % i, ["record", "sat", "--seed", ctx.seed * 1000 + i, "--segments", segs, "--len", 40,
+                                              "--nmax", 5 + (i % 2)]) for i in range(n)], "TraceUnitProp", "TraceUnitProp.cfg")
+
+
+def td_jobs(ctx, n, segs, nmax=5):
+    return [("td_%d" % i, ["record", "topdown", "--seed", ctx.seed * 1000 + i, "--segments", segs, "--nmax", nmax + (i % 2)])
+            for i in range(n)]
+
+
+def C06(ctx):
+    ctx.assumptions += ["CNFs <= 6 variables, <= 9 clauses; every permutation of the variables may be the decision order (random)",
+                        "both node stores (standard, semantic-hash over the 64-bit prime); conditioning on every (variable, value) of results and their negations",
+                        "engineered family: unit clauses + a two-variable core whose (un)satisfiability is only found by search"]
+    record_and_validate(ctx, td_jobs(ctx, 6 if ctx.quick else 40, 150 if ctx.quick else 250), "TraceTopDown", "TraceTopDown_C06.cfg")
